@@ -8,6 +8,7 @@ builtins.  Anything else raises Unsupported -> the function's obligations are UN
 from __future__ import annotations
 
 import ast
+import os
 from typing import Any, Callable, Dict, List, Optional, Sequence, Tuple
 
 import z3
@@ -90,22 +91,42 @@ class Exec:
             s.add(a)
         return s
 
+    def _inc_check(self, pc: List[Any], extra: Any) -> Any:
+        """Incremental feasibility check: one solver whose assertion stack follows the path condition
+        (one scope per fact); successive checks share long prefixes, so little is re-asserted."""
+        if not hasattr(self, "_inc"):
+            self._inc = self._solver(3000)
+            # infeasible paths are refuted almost instantly; a feasible one only saturates E-matching.
+            # A small deterministic resource limit (unknown = feasible) keeps the pruning sound.
+            self._inc.set("rlimit", int(os.environ.get("PYVC_FEAS_RLIMIT", "60000")))
+            self._inc_ids: List[int] = []
+        ids = [f.get_id() for f in pc]
+        k = 0
+        n = min(len(ids), len(self._inc_ids))
+        while k < n and ids[k] == self._inc_ids[k]:
+            k += 1
+        if len(self._inc_ids) > k:
+            self._inc.pop(len(self._inc_ids) - k)
+            del self._inc_ids[k:]
+        for f, i in zip(pc[k:], ids[k:]):
+            self._inc.push()
+            self._inc.add(f)
+            self._inc_ids.append(i)
+        if extra is None:
+            return self._inc.check()
+        self._inc.push()
+        self._inc.add(extra)
+        r = self._inc.check()
+        self._inc.pop()
+        return r
+
     def sat(self, st: State, cond: Any = None) -> bool:
         """May `pc /\\ cond` be satisfiable?  (`unknown` counts as yes: pruning must be sound.)"""
         self.sat_calls += 1
-        s = self._solver(3000)
-        for f in st.pc:
-            s.add(f)
-        if cond is not None:
-            s.add(cond)
-        return s.check() != z3.unsat
+        return self._inc_check(st.pc, cond) != z3.unsat
 
     def proves(self, st: State, goal: Any) -> bool:
-        s = self._solver(3000)
-        for f in st.pc:
-            s.add(f)
-        s.add(z3.Not(goal))
-        return s.check() == z3.unsat
+        return self._inc_check(st.pc, z3.Not(goal)) == z3.unsat
 
     def branch(self, st: State, c: Any, exc: Optional[str] = None, what: str = "") -> List[Tuple[State, bool]]:
         """Fork on condition c.  With `exc`, c is the no-exception condition of a primitive: when the
@@ -118,7 +139,8 @@ class Exec:
         out: List[Tuple[State, bool]] = []
         nc = z3.Not(c)
         t_ok = self.sat(st, c)
-        f_ok = self.sat(st, nc)
+        # every live state has a satisfiable path condition, so if c is impossible its negation is not
+        f_ok = self.sat(st, nc) if t_ok else True
         if exc is not None and t_ok and not f_ok:
             self.nothrow_ctr = getattr(self, "nothrow_ctr", 0) + 1
             self.oblige(st, f"{self.fname.split(':')[-1]}:nothrow[{exc}]#{self.nothrow_ctr}", "nothrow", c,
